@@ -43,6 +43,7 @@ def normalise(prog):
         r.setdefault('plan', {})
         r.setdefault('recreq', {})
         r.setdefault('recfalsy', [])
+        r.setdefault('plan_it', {})
     prog.setdefault('collab', {})
     return prog
 
@@ -324,6 +325,7 @@ def to_tla(prog):
             'plan': {i: [parse_outcome(o) for o in (r['plan'].get(i) or ['ok'])] for i in ids},
             'recreq': {i: int(r['recreq'].get(i, -1)) for i in ids},
             'recfalsy': {i: i in r.get('recfalsy', ()) for i in ids},
+            'plan_it': {i: [[parse_outcome(o) for o in ep] for ep in (r.get('plan_it', {}).get(i) or [])] for i in ids},
         })
     byid = node_by_id(prog)
     rec_inside = set()
